@@ -5,33 +5,27 @@ import (
 	"go/types"
 )
 
-var havocN int
 
 // produce a "dirty" (non-zero, otherwise arbitrary) value of type t
 func (x *Exec) havocVal(t types.Type, depth int) Value {
-	havocN++
 	switch u := t.Underlying().(type) {
 	case *types.Basic:
 		switch {
 		case u.Info()&types.IsBoolean != 0:
-			b := FreshBV("hb", 1)
-			registerSym(b)
+			b := x.FreshBV("hb", 1)
 			x.inputs = append(x.inputs, b)
 			return bvcmp("=", b, BV(1, 1))
 		case u.Info()&types.IsString != 0:
-			b := FreshBV("hs", 8)
-			registerSym(b)
+			b := x.FreshBV("hs", 8)
 			x.inputs = append(x.inputs, b)
 			return &Str{b: []*Term{b}}
 		case u.Info()&types.IsFloat != 0:
-			f := FreshFP("hf")
-			registerSym(f)
+			f := x.FreshFP("hf")
 			x.inputs = append(x.inputs, f)
 			return f
 		case u.Info()&types.IsInteger != 0:
 			w, _ := width(t)
-			v := FreshBV("hi", w)
-			registerSym(v)
+			v := x.FreshBV("hi", w)
 			x.inputs = append(x.inputs, v)
 			return v
 		}
